@@ -513,6 +513,13 @@ def check_failure(col: Collector, repo: Repo, ex, run_dir_var):
                     d = [s for s in t.body if isinstance(s, ast.Assign) and src(s.targets[0]) == f_.iter.id
                          and isinstance(s.value, ast.Call) and src(s.value.func) == "docker.run"]
                     ok = ok or bool(d)
+                    if d:
+                        # ... to its end: the container's failure is raised by the generator when it is exhausted, so a loop that stops
+                        # early (break / return) never sees it
+                        early = [type(x).__name__ for x in ast.walk(f_) if isinstance(x, (ast.Break, ast.Return))]
+                        col.add("C17.R4", ex.short, "stream-consumed-to-its-end", not early,
+                                f"the loop over docker.run's output must not leave early ({early}): python_on_whales raises the DockerException "
+                                "after the last chunk", f"{ex.module.rel}:{f_.lineno}")
     col.add("C17.R4", ex.short, "stream-consumed-inside-try", ok,
             "docker.run(stream=True) is lazy: its output must be iterated inside the same try so a failure at any chunk propagates", ex.loc)
     # _extract_result_TTree: copy run_dir/filename -> output_dir/filename, return new path
